@@ -569,7 +569,9 @@ impl<P: PathManager> UdpScionSocket<P> {
                 SystemTime::now(),
             )
             .await?;
-        self.socket.send_to_via(payload, destination, path).await
+        // Through `Self::send_to_via`, so that a send failure on the path chosen by the path
+        // manager is reported to the send error receivers (the path manager among them).
+        self.send_to_via(payload, destination, path).await
     }
 
     /// Send a datagram to the specified destination via the specified path.
